@@ -488,7 +488,8 @@ class BaseModel(object):
 
     def _set_persisted(self, force=False):
         # ensure we don't modify to any values not affected by the last save/update
-        for v in [v for v in self._values.values() if v.changed or force]:
+        # a deleted column (nulled, or a collection emptied in place) has been written too
+        for v in [v for v in self._values.values() if v.changed or v.deleted or force]:
             v.reset_previous_value()
             v.explicit = False
         self._is_persisted = True
